@@ -407,6 +407,15 @@ class C03(props.Prop):
                 v.aborted = None
         elif spec.get('growth_entry'):
             v.probes['growth_entry_runs'] += 1
+        idle = props.max_idle_rounds(rec)
+        v.extra['max_idle_hier_rounds'] = props.retest_bucket(idle)
+        if idle > props.IDLE_ROUNDS_BOUND:
+            v.violate('endless-rounds', 'C03:endless-rounds:hierarchical',
+                      f'{idle} consecutive hierarchical rounds were generated '
+                      f'from the same input without any adoption (a pass '
+                      f'makes at most two): testing goes on without progress')
+        nre, _dg = props.max_retests(rec)
+        v.extra['max_retests_of_one_candidate'] = props.retest_bucket(nre)
         # (b) bounded liveness
         bound = 20 * len(spec['input']) + 1000
         if len(rec.writes) > bound:
